@@ -306,6 +306,14 @@ def run(ctx):
                       'are not those of the POSIX-TZ grammar' % t, construct='lex:%s:%s' % (fname(kk), base))
     ctx.minimum('C16-lex', 4)
 
+    # ---- C16-cursor: the scanners never read or step beyond the terminating NUL, and use no search result untested
+    from . import cursor as _cursor
+    n_cur = 0
+    for k2, (u2, f2) in sorted(G.defs.items()):
+        if u2.name == 'time_zone_posix.cc' and k2 in G.reachable([G.one('cctz::ParsePosixSpec')]) | {G.one('cctz::ParsePosixSpec')}:
+            n_cur += _cursor.check_function(ctx, 'C16-cursor', k2)
+    ctx.minimum('C16-cursor', 10)
+
     # ---- C16-ovf: guarded accumulate in ParseInt
     n_acc_ = check_guarded_accumulate(ctx, 'C16-ovf', G.one('cctz::ParseInt', 'int*'))
     ctx.minimum('C16-ovf', 2)
